@@ -403,6 +403,8 @@ func runC01(e *Env) {
 	})
 	e.R.AddPart(ev.Part{Name: "whole-dictionary-pieces", Enumerated: fmt.Sprintf("%d keys x {ascending, descending, grouped by symbol} x {no bass, bass 5}: one piece holding every (degree 1..24 x quality, look-up) chord that stays inside the MIDI range (%d chords in all); in-process, every 6th piece also through the real binary", len(wkeys), wchords), Executions: int64(len(wjobs)), Transitions: wchords, Exhaustive: true})
 
+	runYAMLForms(e, "C01")
+
 	// (d) long documents: the key in force, the look-up and the octave of the 100th chord
 	runLong(e, 16, func(c *playCase) { c01Doc(e, m, c) })
 }
